@@ -25,11 +25,17 @@ type exec struct {
 	// perStmt[i] = real postings attributed to statement i (nil when attribution was not done
 	// or failed).
 	perStmt [][]real.Posting
+	// firstVars: this execution is a second run of one parse result; these were the variables of
+	// the first run
+	firstVars map[string]string
 }
 
 func (e *exec) input() any {
 	d := e.c.Describe()
 	d["script"] = e.text
+	if e.firstVars != nil {
+		d["second_run_of_the_same_parse_result_first_run_had_vars"] = e.firstVars
+	}
 	return d
 }
 
@@ -59,6 +65,67 @@ func run(c *fw.Ctx, cs *gen.Case) (*exec, bool) {
 	e.mod = model.Run(cs.Script, real.ToInput(cs))
 	c.Eval()
 	return e, true
+}
+
+// rerunVaried runs the parse result of e a second time with other values for some of its plain
+// variables (portions, amounts, numbers) and evaluates the model for the new values: a parsed
+// program is meant to be run many times with different variables.
+func rerunVaried(c *fw.Ctx, e *exec) (*exec, bool) {
+	r := rng.New(c.Seed, "vary|"+e.text)
+	if !r.Chance(1, 3) {
+		return nil, false
+	}
+	cs2 := *e.c
+	cs2.Vars = map[string]string{}
+	for k, v := range e.c.Vars {
+		cs2.Vars[k] = v
+	}
+	changed := false
+	for _, d := range e.c.Script.Vars {
+		old, has := e.c.Vars[d.Name]
+		if d.Origin != nil || !has || !r.Chance(2, 3) {
+			continue
+		}
+		switch d.Type {
+		case "portion":
+			nv := r.Pick("0/1", "1/1", "1/2", "1/3", "25%", "10%", "70%", "3/7", "0%", "100%")
+			if p, _ := model.PortionOfText(old); p != nil && r.Bool() {
+				nv = new(big.Rat).Sub(big.NewRat(1, 1), p).String() // the complement
+				if !strings.Contains(nv, "/") {
+					nv += "/1"
+				}
+			}
+			if nv != old {
+				cs2.Vars[d.Name], changed = nv, true
+			}
+		case "number", "monetary":
+			i := strings.LastIndexByte(old, ' ') + 1
+			n, ok := new(big.Int).SetString(old[i:], 10)
+			if !ok {
+				continue
+			}
+			switch r.Intn(4) {
+			case 0:
+				n.Add(n, big.NewInt(1))
+			case 1:
+				n.Sub(n, big.NewInt(1))
+			case 2:
+				n.Rsh(n, 1)
+			default:
+				n.Add(n, gen.SmallOrBig(r, 10))
+			}
+			cs2.Vars[d.Name], changed = old[:i]+n.String(), true
+		}
+	}
+	if !changed {
+		return nil, false
+	}
+	e2 := &exec{c: &cs2, text: e.text, parse: e.parse, firstVars: e.c.Vars}
+	e2.out, e2.store = real.RunCase(e.parse.Result, &cs2, real.Exact)
+	e2.mod = model.Run(cs2.Script, real.ToInput(&cs2))
+	c.Eval()
+	c.Count("second_runs_of_a_parse_result_with_other_variables", 1)
+	return e2, true
 }
 
 // attribute fills perStmt by executing every proper prefix of the script.
@@ -246,7 +313,61 @@ func tune(r *rng.R, cs *gen.Case) {
 func genCase(r *rng.R, cfg gen.LCfg) *gen.Case {
 	cs := gen.GenLedger(r, cfg)
 	tune(r, cs)
+	if r.Chance(1, 6) {
+		padNumbers(r, cs)
+	}
 	return cs
+}
+
+// padNumbers rewrites some numbers of the case — literals of the script, number and monetary
+// variable texts — with leading zeros (007, -0100, "USD 0100"): the value is the same.
+func padNumbers(r *rng.R, cs *gen.Case) {
+	pad := func(t string) string {
+		z := strings.Repeat("0", 1+r.Intn(3))
+		if strings.HasPrefix(t, "-") {
+			return "-" + z + t[1:]
+		}
+		return z + t
+	}
+	var walk func(e gen.Expr)
+	walk = func(e gen.Expr) {
+		switch e := e.(type) {
+		case *gen.Num:
+			if r.Chance(1, 3) {
+				e.Text = pad(e.Text)
+			}
+		case *gen.Mon:
+			walk(e.Amount)
+		case *gen.Infix:
+			walk(e.L)
+			walk(e.R)
+		}
+	}
+	gen.WalkExprs(cs.Script, walk)
+	types := map[string]string{}
+	for _, d := range cs.Script.Vars {
+		types[d.Name] = d.Type
+	}
+	names := make([]string, 0, len(cs.Vars))
+	for n := range cs.Vars {
+		names = append(names, n)
+	}
+	sort.Strings(names)
+	for _, n := range names {
+		if !r.Chance(1, 3) {
+			continue
+		}
+		t := cs.Vars[n]
+		switch types[n] {
+		case "number":
+			cs.Vars[n] = pad(t)
+		case "monetary":
+			if i := strings.LastIndexByte(t, ' '); i >= 0 {
+				cs.Vars[n] = t[:i+1] + pad(t[i+1:])
+			}
+		}
+	}
+	cs.Tags["padded-numbers"] = true
 }
 
 // genCaseM is genCase, and now and then one plain variable is turned into a meta()-origin
